@@ -520,6 +520,7 @@ pub fn run(args: &Args, report: &mut Report) {
     // ---- files on disk: unreadable / invalid files are skipped (tie through the values serde parsed) ----
     let dir = std::env::temp_dir().join(format!("vh-config-{}-{}", std::process::id(), args.seed));
     let n_disk = if thorough { 3_000 } else { 200 };
+    let mut disk_cases: Vec<(String, String, Value)> = Vec::new();
     for i in 0..n_disk {
         let n = rng.range(1, 3);
         let mut texts = Vec::new();
@@ -554,13 +555,16 @@ pub fn run(args: &Args, report: &mut Report) {
         }
         if !has_lua {
             if let Ok(raw) = raw {
-                let model = run_driver(&[load_request(&parsed)]).pop().unwrap();
-                if model != format!("ok {raw}") {
-                    report.mismatch(json!({"input": {"disk_files": texts, "files": parsed}, "op": "json.load (disk)", "model": model, "impl": raw}));
-                } else {
-                    report.traces_validated += 1;
-                }
+                disk_cases.push((load_request(&parsed), raw, json!({"disk_files": texts, "files": parsed})));
             }
+        }
+    }
+    let disk_answers = run_driver(&disk_cases.iter().map(|c| c.0.clone()).collect::<Vec<_>>());
+    for ((_, raw, input), model) in disk_cases.iter().zip(disk_answers.iter()) {
+        if *model != format!("ok {raw}") {
+            report.mismatch(json!({"input": input, "op": "json.load (disk)", "model": model, "impl": raw}));
+        } else {
+            report.traces_validated += 1;
         }
     }
     if !c32 {
